@@ -883,3 +883,4 @@ EXPLANATION += (' Location-independent additions: INV/chords-block-split (divide
 EXPLANATION += (' Round 6: ' + 'PITFALL/narrowing-cast over every method of every one-hot encoding; PITCHCLASS/reduced (chord_symbol_root / chord_symbol_bass return a value reduced modulo 12; a reduction written as loops is judged at -1, 0, 11, 12).')
 EXPLANATION += (' Round 7: ' + 'INV/melody-scenarios (three ranges x five events, encode and decode folded); CHORD/quality-needs-all-degrees.')
 EXPLANATION += (' Rounds 9-10: ' + 'EVENT/validator-admits (the PerformanceEvent validator evaluated on twelve decodable events); CHORD/label-below-num-classes (interval of every returned label against num_classes).')
+EXPLANATION += (' Round 11: ' + 'CHORD/regex-group-into-table shared from C15; PITCHCLASS/reduced locates a one-sided wrap.')
